@@ -145,15 +145,26 @@ def printer(ctx, c):
     # property tokens: b<element of failed_safety>
     okb = False
     for s_, sh in rows:
-        if sh == "b{}":
+        sep_ok = False
+        if sh in ("b{}{}", "b{}{}\n"):
+            # `write!(out, "b{bad_id}{terminator}")` with a terminator that is a blank / line end chosen by the position: a separator, not a field
+            an2 = fmtstr.arg_nodes(s_)
+            if len(an2) == 2 and an2[1] is not None:
+                alts = norm_.value_alternatives(an2[1])
+                lits_ = [peel(v_).get("v") for _, v_ in alts if peel(v_).get("k") == "lit"]
+                # all properties on one line: a blank between two of them, the line end after the last one
+                sep_ok = len(lits_) == len(alts) and sorted(set(lits_)) == ["\n", " "]
+        if sh == "b{}" or sep_ok:
             an = fmtstr.arg_nodes(s_)
             it = norm_.iter_context(ix, s_["node"])
             if an and an[0] is not None and it is not None and it["kind"] == "for":
                 b, ms = chain(it["src"])
                 fp = field_path(b)
                 binds = [i for _, i in pat_bindings(it["pat"])]
-                okb = bool(fp) and fp[2] == ["failed_safety"] and local_id(an[0]) in binds and [m[0] for m in ms][:1] == ["iter"] and \
-                    (len(binds) == 1 or (it["pat"].get("k") == "ptuple" and local_id(an[0]) == (binding_of_pat(it["pat"]["subs"][1]) or (None, None))[1]))
+                enumerated = "enumerate" in [m[0] for m in ms]
+                elem_ok = (it["pat"].get("k") == "ptuple" and len(it["pat"].get("subs", [])) == 2 and local_id(an[0]) == (binding_of_pat(it["pat"]["subs"][1]) or (None, None))[1]) if enumerated \
+                    else len(binds) == 1            # with `enumerate` the element is the second component, whatever else is bound
+                okb = bool(fp) and fp[2] == ["failed_safety"] and local_id(an[0]) in binds and [m[0] for m in ms][:1] == ["iter"] and elem_ok
     ctx.inst("R16.1", "printer:property-token", okb, f["span"], "failed properties must be printed as b<index> for every element of failed_safety: %s" % shapes)
     ctx.inst("R16.1", "printer:state-frame-marker", "#0\n" in shapes, f["span"], "the initial state frame must be introduced by `#0`")
     # @k: k is the enumerate index over witness.inputs
@@ -391,6 +402,8 @@ def reader(ctx, c):
         if r.get("k") == "call" and callee(r) == W + "update_value" and len(r["args"]) == 2:
             old = norm_.value_source(ix, defs, r["args"][0])
             ob, oms = chain(old)
+            if peel(ob).get("k") == "call" and (callee(peel(ob)) or "").endswith(("mem::take", "mem::replace")) and peel(ob).get("args"):
+                ob = peel(peel(ob)["args"][0])          # `let old = std::mem::take(&mut wit.init[ii]);` - the old value moved out instead of cloned
             old_ok = [m_[0] for m_ in oms] in (["clone"], []) and peel(ob).get("k") == "index" and field_path(peel(ob)["e"]) and field_path(peel(ob)["e"])[2] == ["init"] and local_id(peel(ob)["i"]) is not None and local_id(peel(ob)["i"]) == local_id(idx)
             conds = norm_.path_conditions(ix, a)
             frame0 = any(pol and c_.get("k") == "binary" and c_["op"] == "==" and (peel(c_["r"]).get("v") == 0 or peel(c_["l"]).get("v") == 0) for c_, pol in conds)
@@ -505,6 +518,27 @@ def assignment(ctx):
             st_ = len_set_test(c)
             if st_ == {3, 4} and neg:
                 rejects = True
+            # De Morgan: `len != 3 && len != 4`
+            if not neg and c.get("k") == "binary" and c["op"] == "&&":
+                parts = []
+                stack_ = [c]
+                while stack_:
+                    x_ = resolve(stack_.pop())
+                    if x_.get("k") == "binary" and x_["op"] == "&&":
+                        stack_ += [x_["l"], x_["r"]]
+                    else:
+                        parts.append(x_)
+                ks_ = set()
+                for x_ in parts:
+                    if x_.get("k") == "binary" and x_["op"] == "!=":
+                        one = len_set_test(dict(x_, op="=="))
+                        if one and len(one) == 1:
+                            ks_ |= one
+                            continue
+                    ks_ = None
+                    break
+                if ks_ == {3, 4}:
+                    rejects = True
 
     def count_evidence(conds):
         """the token count implied by the conditions under which a value is produced: 3, 4 or None"""
@@ -582,6 +616,9 @@ def assignment(ctx):
     if rejects and len(bv) == 1 and len(arr) == 1 and count_of(arr[0][0]) == 4 and count_of(bv[0][0]) is None:
         # the bit-vector value is the alternative to the 4-token case (anything but 3 or 4 was rejected before)
         lens_ok = all((c_.get("k") == "armpat" or not pol or True) for c_, pol in bv[0][0])
+    if rejects and len(bv) == 1 and len(arr) == 1 and count_of(bv[0][0]) == 3 and count_of(arr[0][0]) is None:
+        # the mirror image: the 3-token case returns early, the array entry is what remains (anything but 3 or 4 was rejected before)
+        lens_ok = True
     ctx.inst("R16.1", "reader:token-count", lens_ok, g["span"], "assignments must have 3 tokens (bit-vector) or 4 tokens (array entry), anything else must be rejected")
     ok_bv = len(bv) == 1 and from_bits(bv[0][1]["args"][0]) == (1, None)
     ctx.inst("R16.1", "reader:bv-value-at-1", ok_bv, g["span"], "a bit-vector value must be read from token 1 in binary")
